@@ -257,6 +257,9 @@ class AEnv:
             return self._broadcast(v, x, y, "add")
         if op in ("neg", "np.abs", "np.asarray", "func.stop_gradient"):
             return self.need(a[0])
+        if op == "np.sign":
+            t = self.need(a[0])  # signs are pure numbers of the operand's shape
+            return AT([ax.relabel(lambda _l: ONE) for ax in t.axes], ONE, False)
         if op == "matmul":
             return self._matmul(v, self.need(a[0]), self.need(a[1]))
         if op == "attr":
